@@ -14,7 +14,7 @@ import (
 
 func init() {
 	register("C19", propMeta{
-		Explanation: "Decides codec agreement and value placement, not equality with a model: (R1) the node codec is symmetric and complete: the private structs in Node.MarshalJSON and Node.UnmarshalJSON declare the same fields, types and JSON tags, these cover every exported field of Node, every decoded field is copied back into the node, Item's JSON tags are unique and its only untagged field is the unexported fetch marker; (R2) decode failures on the read path are returned (shared with C10.R5); (R3) value placement follows the store options: commitTrackedItemsValues is a no-op exactly when values live in the node segment or are actively persisted; manage detaches an item's value (Value = nil, ValueNeedsFetch = true) only after that value was marshalled successfully into the blob it returns; (R4) the in-memory value of the current item is dropped (unfetchCurrentValue) only when it is known to be a copy fetched from the value store - the valueWasFetched marker, set only by the fetching read paths - because an added-then-updated value may exist inline only; (R5) a value read falls back to the blob store when the value cache misses or fails, returns the blob store's error, and assigns item.Value only after a successful decode.",
+		Explanation: "Decides codec agreement and value placement, not equality with a model: (R1) the node codec is symmetric and complete: the private structs in Node.MarshalJSON and Node.UnmarshalJSON declare the same fields, types and JSON tags, these cover every exported field of Node, every decoded field is copied back into the node, Item's JSON tags are unique and its only untagged field is the unexported fetch marker; (R2) decode failures on the read path are returned (shared with C10.R5); (R3) value placement follows the store options: commitTrackedItemsValues is a no-op exactly when values live in the node segment or are actively persisted; manage detaches an item's value (Value = nil, ValueNeedsFetch = true) only after that value was marshalled successfully into the blob it returns; (R4) the in-memory value of the current item is dropped (unfetchCurrentValue) only when it is known to be a copy fetched from the value store - the valueWasFetched marker, set only by the fetching read paths - because an added-then-updated value may exist inline only; (R5) a value read falls back to the blob store when the value cache misses or fails, returns the blob store's error, and assigns item.Value only after a successful decode. (R6) ValueNeedsFetch is cleared only behind a `Value != nil` test of the same item, after an assignment of its Value, or while removing the item.",
 		DoesNotCover: "Equality of contents with an in-memory model over operation sequences, restart behaviour and slot-length dependent restructuring are not decided.",
 	}, runC19)
 }
@@ -271,6 +271,94 @@ func runC19(c *Ctx) {
 		c.Check(sameSet(droppers, "btree.Btree.unfetchCurrentValue"), r4, "package btree: the only function that drops an item's value is unfetchCurrentValue", token.NoPos, fmt.Sprintf("%v", shortKeys(droppers)), fmt.Sprintf("values dropped in %v", shortKeys(droppers)), nil)
 	}
 
+	r6 := c.Rule("R6", "ValueNeedsFetch is cleared (the slot declares that it holds its value itself) only where the value is in memory - behind a `Value != nil` test of the same item or after an assignment of its Value - or where the item is being removed", 6)
+	{
+		vnf := w.Field("btree", "Item", "ValueNeedsFetch")
+		valF := w.Field("btree", "Item", "Value")
+		nSites := 0
+		for _, fn := range append(w.declaredFuncs("common"), w.declaredFuncs("btree")...) {
+			info := fn.Pkg.TypesInfo
+			for _, ws := range w.writesOf(fn, vnf, false) {
+				if ws.Rhs == nil || !isBoolLit(info, ws.Rhs, false) {
+					continue
+				}
+				as, _ := ws.Stmt.(*ast.AssignStmt)
+				if as == nil {
+					continue
+				}
+				nSites++
+				g := w.G(fn)
+				var base string
+				for _, l := range as.Lhs {
+					if sel, ok := ast.Unparen(l).(*ast.SelectorExpr); ok && fieldOfSelector(info, sel) == vnf {
+						base = types.ExprString(sel.X)
+					}
+				}
+				var wn *GNode
+				for _, n := range g.Nodes {
+					if n.Ast == ast.Node(as) {
+						wn = n
+					}
+				}
+				construct := fmt.Sprintf("%s: ValueNeedsFetch of %s cleared #%d only with the value at hand", shortKey(fn.Key), base, ordinalOfWrite(w, fn, vnf, ws))
+				if wn == nil {
+					c.Violated(r6, construct, ws.Pos, "assignment not found in the control-flow graph", nil)
+					continue
+				}
+				// (c) removal context
+				removal := fn.Obj != nil && fn.Obj.Name() == "Remove"
+				ast.Inspect(fn.Body, func(x ast.Node) bool {
+					cc, ok := x.(*ast.CaseClause)
+					if !ok || cc.Pos() > as.Pos() || cc.End() < as.End() {
+						return true
+					}
+					for _, e := range cc.List {
+						if id, ok := ast.Unparen(e).(*ast.Ident); ok && id.Name == "removeAction" {
+							removal = true
+						}
+					}
+					return true
+				})
+				if removal {
+					c.Held(r6, construct, ws.Pos, "removal: the item and its value go away")
+					continue
+				}
+				// (a) behind `base.Value != nil`
+				guards := g.condNodes(func(e ast.Expr) bool {
+					be, ok := ast.Unparen(e).(*ast.BinaryExpr)
+					if !ok || be.Op != token.NEQ || !isNilLit(info, be.Y) {
+						return false
+					}
+					sel, ok := ast.Unparen(be.X).(*ast.SelectorExpr)
+					return ok && fieldOfSelector(info, sel) == valF && types.ExprString(sel.X) == base
+				})
+				if len(guards) > 0 && len(g.notOnlyVia(guards, 1, func(n *GNode) bool { return n == wn })) == 0 {
+					c.Held(r6, construct, ws.Pos, "only reachable through `"+base+".Value != nil`")
+					continue
+				}
+				// (b) after an assignment of base.Value
+				setVal := func(n *GNode) bool {
+					a2, ok := n.Ast.(*ast.AssignStmt)
+					if !ok {
+						return false
+					}
+					for i, l := range a2.Lhs {
+						if sel, ok := ast.Unparen(l).(*ast.SelectorExpr); ok && fieldOfSelector(info, sel) == valF && types.ExprString(sel.X) == base {
+							if i < len(a2.Rhs) && isNilLit(info, a2.Rhs[i]) {
+								return false
+							}
+							return true
+						}
+					}
+					return false
+				}
+				offs := g.MustPrecede(setVal, func(n *GNode) bool { return n == wn })
+				c.Check(len(g.Find(setVal)) > 0 && len(offs) == 0, r6, construct, ws.Pos, "every path to the write assigns "+base+".Value first",
+					"the slot is marked as holding its value although no value is known to be in memory there: an item whose value lives in the value store and was not fetched (a key-only update) ends up with Value == nil, ValueNeedsFetch == false - readers get the zero value and the stored value is queued for deletion", nil)
+			}
+		}
+		c.Check(nSites >= 6, r6, "ValueNeedsFetch = false sites inventoried", token.NoPos, fmt.Sprintf("%d sites", nSites), fmt.Sprintf("only %d sites found, expected at least 6", nSites), nil)
+	}
 	r5 := c.Rule("R5", "value reads fall back from the cache to the blob store and assign the value only after decoding", 3)
 	{
 		f := w.Fn("common.itemActionTracker.Get")
@@ -335,4 +423,15 @@ func fieldOfSelectorDeep(info *types.Info, e ast.Expr) *types.Var {
 		break
 	}
 	return fieldOfSelector(info, e)
+}
+
+// ordinalOfWrite: 1-based ordinal of the write among the writes of obj in f, in source order.
+func ordinalOfWrite(w *World, f *Func, obj types.Object, ws WriteSite) int {
+	n := 0
+	for _, x := range w.writesOf(f, obj, false) {
+		if x.Pos <= ws.Pos {
+			n++
+		}
+	}
+	return n
 }
